@@ -780,6 +780,11 @@ def _fold_value(t: Term, env: Dict[Any, Any], loops: List[Any]) -> Any:
         raise _NoValue(repr(t))
     if _bound_kind_test(t):
         return True    # "this bound is a number literal": the case under study
+    if isinstance(t, Attr) and t.name in ('start', 'stop', 'step') and _range_parts(t) is None:
+        rng = _fold_value(t.base, env, loops)
+        if isinstance(rng, range):
+            return getattr(rng, t.name)
+        raise _NoValue(repr(t))
     if isinstance(t, Ite):
         return _fold_value(t.a if _fold_value(t.test, env, loops) else t.b, env, loops)
     if isinstance(t, Op):
